@@ -24,6 +24,18 @@ var commonAssumptions = []string{
 }
 
 var specs = map[string]spec{
+	"C01": {
+		LevelText: "bounded exhaustive enumeration of expression programs (every operator x operand-class pair, every two-level nesting with minimal and redundant parentheses, every syntactic position, data-reference chains, every built-in function) compiled and rendered by the real implementation and compared with an independent reference evaluator; every case is replayed on the uninstrumented build",
+		LevelNote: "the reference evaluator (harness/ref_expr.go, DESIGN.md Appendix A) is the trusted base; cells the language leaves open are checked for termination/no panic only",
+		Technique: "bounded exhaustive exploration of programs against a reference model (explicit enumeration, fuel-bounded executions)",
+		Level:     "model_checking",
+		Rule:      "a state is a distinct generated template (expression x syntactic position x parenthesisation); a transition is one compile+render compared with the reference evaluator; non-trivial = the reference defines the result (value or mandatory error), i.e. not an unspecified cell",
+		Bounds: map[string]string{
+			"quick":    "S1 all 14 binary ops x 50x50 atoms + unary/ternary; S2 all operator pairs in both groupings over 11 operand triples (minimal and full parentheses); S3 20 positions x 70 shapes + atoms; S4 reference chains <=2 accesses on 9 roots; S5 functions",
+			"thorough": "adds three-operator nestings (14^3 x 3 shapes x 11 triples) and reference chains of 3 accesses",
+		},
+		Assumptions: commonAssumptions, Plain: true, QuickStride: 1, ThoroughStride: 1, QuickDeadline: 420, ThoroughDeadline: 3000,
+	},
 	"C05": {
 		LevelText: "bounded exhaustive exploration of the real parser: every input of the stated small scopes is parsed under a controlled scheduler with a deterministic linear fuel bound (no wall clock), and small inputs under every parser/scanner interleaving up to 2 preemptions; termination, no panic, no deadlock and tree-xor-error are checked on every execution and every case is replayed on the uninstrumented build",
 		LevelNote: "assumes the bounded scopes are representative (small-scope hypothesis) and that the overlay instrumentation preserves behaviour (cross-checked case by case against the plain build)",
